@@ -417,6 +417,10 @@ func TestVerifC14(t *testing.T) {
 	maxlen := vlib.Pick(r, 6, 8)
 	allperm := vlib.Pick(r, 5, 7) // batches up to this size: every permutation; larger: identity, reverse and their rotations
 
+	if _, replaying := r.Replaying(); replaying { // replays run in the quick tier: search the thorough space for the recorded id
+		maxlen, allperm = 8, 7
+	}
+
 	r.Rule("chain length 1..L x batch limit 1..length+1 x start {no previous map, previous map at height 4} x " +
 		"{no break, every single break at every position} x every combination of per-batch arrival permutations; " +
 		"each tuple is a distinct input+schedule; non-trivial = more than one job in some batch and an order other than ascending")
